@@ -8,7 +8,8 @@ KEYS = ["GPR._eval_gpr", "GPR.eval", "Reaction.functional@getter"]
 # the tree-walking visitor classes (contracts/c08_visitors.py; hook table V.HOOKS: child lists as heap state)
 VISITOR_KEYS = ["_GeneRemover.visit_Name", "_GeneRemover.visit_BoolOp",
                 "GPRWalker.visit_Name", "GPRWalker.visit_BoolOp", "GPR.update_genes", "GPR.genes@getter/proved",
-                "GPR._symbolic_gpr", "GPR.as_symbolic", "GPR.__eq__", "GPRCleaner.visit_BinOp"]
+                "GPR._symbolic_gpr", "GPR.as_symbolic", "GPR.__eq__", "GPRCleaner.visit_BinOp",
+                "GPR._eval_gpr/heap", "GPR.eval/heap"]
 
 
 def run(rep):
@@ -37,7 +38,10 @@ def run(rep):
         "soundness of sympy's `equals` and structural `==` of Symbols. GPRCleaner.visit_BinOp (the `&` / `|` spelling) is proved to "
         "return a NEW BoolOp node with an And node for `&` and an Or node for `|` whose `values` is a LIST (precondition of the assumed "
         "constructor contract: a tuple there is rejected) holding exactly the cleaned left and right operand in this order, so that its "
-        "value is their conjunction / disjunction, and to raise TypeError for every other operator."),
+        "value is their conjunction / disjunction, and to raise TypeError for every other operator. GPR._eval_gpr / GPR.eval are "
+        "proved a second time, against this heap-resident semantics, so that evaluation, removal, symbolic form, == and the gene "
+        "set are all stated about one function; lemma kept-rule-is-old-rule-with-genes-absent lifts the remover's contract to the "
+        "GPR object remove_genes rewrites."),
         more=[(VISITOR_KEYS, V.HOOKS)], lemmas=V.all_lemmas,
         trusted=["ast.parse / re / sympy (assumed)", "rule trees are finite and acyclic",
                  "ast.NodeVisitor.visit dispatches on the node's class name to visit_<Class> or generic_visit (assumed contracts "
